@@ -335,6 +335,35 @@ def theta_cursor(chk, rule, repo):
     # the code that consumes the parameters: update itself, its nested functions and module helpers it hands them to
     scope = [f.node] + [g.node for g in tm.functions.values() if g.cls is None and g.parent is None
                         and any(isinstance(c, ast.Call) and dotted(c.func) == g.name for c in ast.walk(f.node))]
+    # ... and the methods of the record it calls through self
+    scope += [g.node for nm, g in cls.methods.items() if g is not f
+              and any(isinstance(c, ast.Call) and isinstance(c.func, ast.Attribute) and c.func.attr == nm
+                      and isinstance(c.func.value, ast.Name) and c.func.value.id in ('self', 'cls') for c in ast.walk(f.node))]
+    by_name = {fn_.name: fn_ for fn_ in scope}
+
+    def calls_behind(fn_, name, depth=2):
+        # names of the functions called in computing local `name` of fn_, also through `a, name = helper(..)` where the
+        # helper returns a tuple
+        out = set()
+        for s_ in ast.walk(fn_):
+            if not isinstance(s_, ast.Assign):
+                continue
+            t = s_.targets[0]
+            if isinstance(t, ast.Name) and t.id == name:
+                out |= {dotted(c.func) or '' for c in ast.walk(s_.value) if isinstance(c, ast.Call)}
+            elif isinstance(t, ast.Tuple) and isinstance(s_.value, ast.Call) and depth > 0:
+                idx = next((i for i, e in enumerate(t.elts) if isinstance(e, ast.Name) and e.id == name), None)
+                cn = (dotted(s_.value.func) or '').split('.')[-1]
+                if idx is not None and cn in by_name:
+                    g_ = by_name[cn]
+                    for r in ast.walk(g_):
+                        if isinstance(r, ast.Return) and isinstance(r.value, ast.Tuple) and idx < len(r.value.elts):
+                            e = r.value.elts[idx]
+                            out |= {dotted(c.func) or '' for c in ast.walk(e) if isinstance(c, ast.Call)}
+                            for x in ast.walk(e):
+                                if isinstance(x, ast.Name):
+                                    out |= calls_behind(g_, x.id, depth - 1)
+        return out
     uses = [s_ for fn_ in scope for s_ in ast.walk(fn_) if isinstance(s_, ast.Subscript) and isinstance(s_.value, ast.Name)
             and s_.value.id == plist and isinstance(s_.ctx, ast.Load)]
     one_by_one = [c for fn_ in scope for c in ast.walk(fn_) if isinstance(c, ast.Call) and dotted(c.func) in ('next', 'iter')
@@ -354,9 +383,8 @@ def theta_cursor(chk, rule, repo):
                         and a.target.id in cursors:
                     names_ = {x.id for x in ast.walk(a.value) if isinstance(x, ast.Name)}
                     calls_ = {dotted(c.func) or '' for c in ast.walk(a.value) if isinstance(c, ast.Call)}
-                    defs = [s_.value for s_ in ast.walk(fn_) if isinstance(s_, ast.Assign) and isinstance(s_.targets[0], ast.Name)
-                            and s_.targets[0].id in names_]
-                    calls_ |= {dotted(c.func) or '' for d in defs for c in ast.walk(d) if isinstance(c, ast.Call)}
+                    for nm_ in names_:
+                        calls_ |= calls_behind(fn_, nm_)
                     desc = f'{unparse(u)} with {unparse(a)}'
                     if any('multiple' in c for c in calls_):
                         ok = True
